@@ -160,7 +160,7 @@ def apply_ic(b):
     b.last.angular_speed = mkq(ic['speed'])
     if ic.get('pwm') is not None:
         b.motor.pwm = ic['pwm']
-    elif hasattr(b, 'pwm0'):
+    elif hasattr(b, 'pwm0') and b.spec.get('reapply_pwm', True):
         b.motor.pwm = b.pwm0
     if not hasattr(b, 'pwm0'):
         b.pwm0 = b.motor.pwm
